@@ -78,7 +78,7 @@ THR = {'less': 1002., 'less_equal': 1003., 'greater': 1010., 'greater_equal': 10
 
 
 def mask_file():
-    rec = {'lens': {'t': 2, 'z': 2, 'x': 3}, 'unl': True, 'kinds': ['A', 'M', 'B', 'X', 'Zx', 'S']}
+    rec = {'lens': {'t': 2, 'z': 2, 'x': 3}, 'unl': True, 'kinds': ['A', 'M', 'B', 'X', 'Zx', 'S', 'Mn']}
     f = rfile.ufile(rec)
     a2 = f.vars['A'].data.copy().astype('f')
     a2.flat[0] = np.nan
